@@ -58,6 +58,9 @@ fn note(size: usize) {
         IN_HOOK.with(|f| {
             if !f.get() {
                 f.set(true);
+                // symbolising can take many seconds on a loaded machine: tell the parent not to
+                // mistake it for a hang
+                eprintln!("C08-ALLOC-PENDING {}", size);
                 let bt = std::backtrace::Backtrace::force_capture().to_string();
                 let site = interesting_frame(&bt);
                 if let Ok(mut s) = SITE.try_lock() {
@@ -264,6 +267,7 @@ pub struct Worker {
     stdin: ChildStdin,
     rx: Receiver<String>,
     last_err: Arc<Mutex<String>>,
+    pending: Arc<std::sync::atomic::AtomicBool>,
     timeout: Duration,
     hangs: usize,
 }
@@ -296,10 +300,16 @@ impl Worker {
         });
         let last_err = Arc::new(Mutex::new(String::new()));
         let le = last_err.clone();
+        let pending = Arc::new(std::sync::atomic::AtomicBool::new(false));
+        let pe = pending.clone();
         std::thread::spawn(move || {
             for l in BufReader::new(stderr).lines().map_while(|l| l.ok()) {
                 if std::env::var("VERIF_LOUD").is_ok() {
                     eprintln!("[worker] {}", l);
+                }
+                if l.starts_with("C08-ALLOC-PENDING") {
+                    pe.store(true, Ordering::SeqCst);
+                    continue;
                 }
                 if l.starts_with("C08-ALLOC-REFUSED") || l.contains("memory allocation of") || l.contains("capacity overflow") || l.contains("overflow") {
                     // keep the most recent line: the one right before an abort is the cause
@@ -310,14 +320,19 @@ impl Worker {
                 }
             }
         });
-        Worker { child, stdin, rx, last_err, timeout, hangs: 0 }
+        Worker { child, stdin, rx, last_err, pending, timeout, hangs: 0 }
     }
 
     /// run one case; restarts the worker after a hang or an abort
     pub fn run(&mut self, line: &str) -> Outcome {
         self.last_err.lock().unwrap().clear();
+        self.pending.store(false, Ordering::SeqCst);
         let sent = writeln!(self.stdin, "{}", line).and_then(|_| self.stdin.flush());
-        let res = if sent.is_err() { Err(RecvTimeoutError::Disconnected) } else { self.rx.recv_timeout(self.timeout) };
+        let mut res = if sent.is_err() { Err(RecvTimeoutError::Disconnected) } else { self.rx.recv_timeout(self.timeout) };
+        if matches!(res, Err(RecvTimeoutError::Timeout)) && self.pending.load(Ordering::SeqCst) {
+            // the worker is inside the allocation hook (symbolising a backtrace): not a hang of the code under test
+            res = self.rx.recv_timeout(Duration::from_secs(180));
+        }
         match res {
             Ok(l) => {
                 let f: Vec<&str> = l.split('\t').collect();
